@@ -288,9 +288,14 @@ func (g *gen) runCase(id int) bool {
 		var hung bool
 		_, hasTwin := g.twin[i]
 		switch {
-		case x < g.p.pCall && g.w.reps[i].typ == "document" && g.r.intn(5) == 0 && !hasTwin:
+		case x < g.p.pCall && g.w.reps[i].typ == "document" && (g.r.intn(5) == 0 || hasTwin && g.r.intn(3) == 0):
+			// handles into nested containers, also on a restored copy (same navigation on the original and its twin, so
+			// that later calls — refused ones included — go through handles of nested nodes on both)
 			from, key, pos, to := g.genNav(i)
 			hung = g.emit(g.w.stepNav(i, from, key, pos, to))
+			if t, ok := g.twin[i]; ok && !hung {
+				hung = g.emit(g.w.stepNav(t, from, key, pos, to))
+			}
 		case x < g.p.pCall:
 			m, a := g.genCall(i, false)
 			hung = g.emit(g.w.stepCall(i, m, a))
